@@ -19,7 +19,7 @@
    the new job cannot start before the running one ends (exclusivity), so it will poll the input again afterwards.
    In a quiescent state (i)-(iii) are false, so (iv) holds: nothing available, not ended - this is theorem 4. *)
 From stdpp Require Import list numbers option.
-From PipeIn Require Import Model Inv Thm.
+From PipeIn Require Import Model Inv Thm Term.
 
 (* 1. order, exactly once: the Process events are, in order, exactly the items taken from the input so far
       (the item in the hands of the running job excepted); what is left is still in the input, in order. *)
@@ -89,6 +89,24 @@ Theorem C11_no_process_after_gone :
     s'.(log) = s.(log) /\ s'.(freed) = true.
 Proof. exact no_process_after_gone. Qed.
 
+(* 4'. the quiescent states of theorems 4 and 5b are always reached: every pipe-side step decreases [measure], and
+       after the environment has finished every pipe-side schedule that runs to rest has processed everything *)
+Theorem C11_pipe_side_terminates :
+  forall s a s', is_env a = false -> step s a = Some s' -> measure s' < measure s.
+Proof. exact step_measure. Qed.
+
+Theorem C11_reaches_quiescent :
+  forall s, exists tr s', Forall (fun a => is_env a = false) tr /\ run s tr = Some s' /\
+    all_done s' = true /\ length tr <= measure s.
+Proof. exact reaches_quiescent. Qed.
+
+Theorem C11_eventually_complete :
+  forall items s, reachable items s -> env_finished s -> s.(ext) = true ->
+    (forall tr s', Forall (fun a => is_env a = false) tr -> run s tr = Some s' -> quiescent s' ->
+       processed s'.(log) = items /\ s'.(pollfn) = false /\ s'.(released) = true) /\
+    (exists tr s', Forall (fun a => is_env a = false) tr /\ run s tr = Some s' /\ quiescent s' /\ length tr <= measure s).
+Proof. exact eventually_complete. Qed.
+
 (* bookkeeping *)
 Theorem C11_labels_defined_iff_enabled : forall s a, step_label s a = None <-> step s a = None.
 Proof. exact step_label_enabled. Qed.
@@ -106,5 +124,8 @@ Print Assumptions C11_weak_reference.
 Print Assumptions C11_never_keeps_alive.
 Print Assumptions C11_shutdown.
 Print Assumptions C11_no_process_after_gone.
+Print Assumptions C11_pipe_side_terminates.
+Print Assumptions C11_reaches_quiescent.
+Print Assumptions C11_eventually_complete.
 Print Assumptions C11_labels_defined_iff_enabled.
 Print Assumptions C11_all_done_quiescent.
